@@ -91,7 +91,9 @@ impl<'a> ScopeInner<'a> {
         designator: Designator,
         ent: EntRef<'a>,
     ) {
-        self.cache.remove(&ent.designator);
+        // The implicit declarations of the entity (enumeration literals, operators)
+        // become visible as well, possibly under a different name
+        self.cache.clear();
         self.region
             .visibility
             .make_potentially_visible_with_name(visible_pos, designator, ent);
